@@ -44,7 +44,15 @@ fn g_axis(rng: &mut Rng, tier: Tier) -> Case {
         c.push_k(&[0]);
         c.class = 0;
     } else {
-        c.push_r(&gen::distinct_rats(rng, tier, 3));
+        // arbitrary non-zero rational direction, including "round" ones such as the space
+        // diagonals (+-1,+-1,+-1) and face diagonals, normalised inside the engine
+        loop {
+            let (v, _) = gen::rats(rng, tier, 3);
+            if v.iter().any(|r| !r.is_zero()) {
+                c.push_r(&v);
+                break;
+            }
+        }
         c.push_k(&[1]);
         c.class = 1;
     }
@@ -200,7 +208,10 @@ fn g_compose(rng: &mut Rng, tier: Tier) -> Case {
     let (v, t) = gen::rats(rng, tier, 3);
     c.push_r(&v);
     c.nontrivial = t;
-    c.push_f(&[gen::angle(rng), gen::angle(rng)]);
+    // one case in four composes a rotation with itself (bit-equal operands)
+    let t1 = gen::angle(rng);
+    let t2 = if rng.chance(1, 4) { t1 } else { gen::angle(rng) };
+    c.push_f(&[t1, t2]);
     c
 }
 
@@ -320,6 +331,20 @@ pub fn native_rodrigues(cfg: &cgv_core::fw::RunCfg, extra: &mut cgv_core::fw::Ex
                 let b2: Basis2<T> = Rotation2::from_angle($ang);
                 let r2 = b2.rotate_vector(Vector2::new(v.x, v.y));
                 cmp("Basis2::from_angle", Vector3::new(r2.x, r2.y, T::zero()), w2);
+                // a rotation composed with itself (bit-equal operands) turns by twice the angle
+                let (s2, c2) = (2.0 * t).sin_cos();
+                let w22 = [x[0] * c2 - x[1] * s2, x[0] * s2 + x[1] * c2, 0.0];
+                let rr = (b2 * b2).rotate_vector(Vector2::new(v.x, v.y));
+                cmp("(Basis2 r * r).rotate_vector", Vector3::new(rr.x, rr.y, T::zero()), w22);
+                let rr = (&b2 * &b2).rotate_vector(Vector2::new(v.x, v.y));
+                cmp("(&r * &r).rotate_vector (Basis2)", Vector3::new(rr.x, rr.y, T::zero()), w22);
+                let m2 = Matrix2::from_angle($ang);
+                let rr = (m2 * m2) * Vector2::new(v.x, v.y);
+                cmp("(Matrix2 r * r) * v", Vector3::new(rr.x, rr.y, T::zero()), w22);
+                let q = Quaternion::from_angle_z($ang);
+                cmp("(Quaternion r * r) * v", (q * q) * Vector3::new(v.x, v.y, T::zero()), w22);
+                let b3 = Basis3::from_angle_z($ang);
+                cmp("(Basis3 r * r).rotate_vector", (b3 * b3).rotate_vector(Vector3::new(v.x, v.y, T::zero())), w22);
             }};
         }
         if deg {
@@ -335,11 +360,20 @@ pub fn native_rodrigues(cfg: &cgv_core::fw::RunCfg, extra: &mut cgv_core::fw::Ex
         let snap = |x: f64| (x as f32) as f64;
         let deg = rng.chance(1, 4);
         let unit = if deg { 180.0 / std::f64::consts::PI } else { 1.0 };
-        let axis = match rng.below(4) {
+        let axis = match rng.below(5) {
             0 => {
                 let mut a = [0.0; 3];
                 a[rng.below(3) as usize] = if rng.bool() { 1.0 } else { -1.0 };
                 a
+            }
+            4 => {
+                // space and face diagonals: components from {-1, 0, 1}, at least two non-zero
+                loop {
+                    let a = [rng.range(-1, 1) as f64, rng.range(-1, 1) as f64, rng.range(-1, 1) as f64];
+                    if a.iter().filter(|x| **x != 0.0).count() >= 2 {
+                        break a;
+                    }
+                }
             }
             1 => {
                 let mut comp = |rng: &mut Rng| snap(10f64.powf(rng.uniform(-4.0, 0.0)) * if rng.bool() { 1.0 } else { -1.0 });
